@@ -97,11 +97,17 @@ type OpCase struct {
 	Domain  []string
 	A0      *Analysis
 	Skip    string // non-empty: the case is not usable (reason)
+	// Deferred: the operation uses @defer.  Lab.Run keeps the request log but not the flushed
+	// frames, so the frames come from a second run (Fix.RunFrames); only the clauses that do not
+	// need the merged response tree are evaluated: sentinel_absent over all frames, fetch_gate on
+	// the request log, collector_complete on the questions asked.
+	Deferred bool
 }
 
 // Prepare runs the decision-independent part.
 func Prepare(fx *Fix, id string, op *Op, refID string) *OpCase {
 	c := &OpCase{Fx: fx, ID: id, Op: op, Text: op.Text(), Vars: []byte(op.VariablesJSON()), RefID: refID}
+	c.Deferred = strings.Contains(c.Text, "@defer")
 	c.W = NewWalker(fx.Lab.Config.Super, op, fx.P)
 	c.W.Requires = RequiresMap(fx.Lab.Config)
 	sh, err := fx.Lab.Mono(c.W.Instrumented().Text(), op.Name, c.Vars)
@@ -136,7 +142,14 @@ func Prepare(fx *Fix, id string, op *Op, refID string) *OpCase {
 	if gw == nil {
 		gw = fedlab.JN()
 	}
-	if !gw.EqualUnordered(ref.Data) {
+	if c.Deferred {
+		frames, err := fx.RunFrames(c.Text, op.Name, c.Vars, None, nil)
+		if err != nil || len(frames) == 0 {
+			c.Skip = fmt.Sprintf("baseline: deferred execution failed without any authorizer: %v", err)
+			return c
+		}
+		c.Base.Data = nil
+	} else if !gw.EqualUnordered(ref.Data) {
 		c.Skip = "baseline: gateway differs from the monolith without any authorizer (C01 territory): " + gw.FirstDiffUnordered(ref.Data, "data")
 		return c
 	}
@@ -216,6 +229,14 @@ func (c *OpCase) RunLine(mode Mode, d Decisions) (line string, an *Analysis) {
 		}
 	}
 	items := []string{"c14", "run", c.ID, common.L("mode", mode.String()), common.L("optype", c.Op.Kind), common.L("d", common.QS(d.String()))}
+	if c.Deferred {
+		frames, err := c.Fx.RunFrames(c.Text, c.Op.Name, c.Vars, mode, d)
+		if err != nil {
+			res.Err = err
+		}
+		res.Response, res.Data, res.Errors = frames, nil, nil
+		items = append(items, common.L("deferred", "t"))
+	}
 	for _, q := range res.Requests {
 		if q.ExecError != "" {
 			return common.L("c14", "run", c.ID, common.L("laberror", common.QS("subgraph "+q.Subgraph+": "+q.ExecError))), an
@@ -262,7 +283,7 @@ func (c *OpCase) RunLine(mode Mode, d Decisions) (line string, an *Analysis) {
 	// reference
 	refS, refErrs, goEqual := "(skip)", 0, true
 	var rop *Op
-	if !an.Mixed {
+	if !an.Mixed && !c.Deferred {
 		// the static rewriting cannot express a coordinate that depends on the runtime type of an
 		// enclosing object (ParentOnTypeNames): no reference then, the position clauses still run
 		if rop = c.W.Reference(mode, d); c.W.Ambiguous {
